@@ -5,7 +5,7 @@ import BioCantor.Driver.SpecGff
 import BioCantor.Model.Gff
 namespace BioCantor.Driver.Gff
 open BioCantor BioCantor.Proto BioCantor.Model.Gff
-open BioCantor.Driver.SpecGff (pStr pOptStr pQuals pRowsArgs arm)
+open BioCantor.Driver.SpecGff (pStr pOptStr pQuals pRowsArgs pTextArgs arm)
 
 def showS (r : Except Err Spec.Gff.Str) : String :=
   match r with
@@ -37,6 +37,11 @@ def ops : List (String × Op) := [
   , ("rows", do
       let (chromRel, raise, c) ← pRowsArgs
       match toGffLines c chromRel raise with
+      | .error e => pure ("err " ++ showErr e)
+      | .ok lines => pure ("ok " ++ arm (lines.flatMap fun l => l ++ ['\n'])))
+  , ("gfftext", do
+      let (addSeq, ordered, chromRel, raise, cs) ← pTextArgs
+      match gff3Lines cs addSeq ordered chromRel raise with
       | .error e => pure ("err " ++ showErr e)
       | .ok lines => pure ("ok " ++ arm (lines.flatMap fun l => l ++ ['\n'])))
 ]
